@@ -166,10 +166,15 @@ def r142(ctx, dists):
         ctx.finding('R14.2', 'Distribution._set_stream', base, bs, '_set_stream does not store exactly its stream argument', where='Distribution._set_stream')
         return
     setter = base.setters.get('stream')
-    ok = setter is not None and any(isinstance(c, ast.Call) and isinstance(c.func, ast.Attribute) and is_self_attr(c.func) and c.func.attr == '_set_stream' for c in walk_shallow(setter))
+    ok = False
+    if setter is not None:
+        calls = [c for c in walk_shallow(setter) if isinstance(c, ast.Call) and isinstance(c.func, ast.Attribute) and is_self_attr(c.func) and c.func.attr == '_set_stream'
+                 and len(c.args) == 1 and unparse(c.args[0]) == setter.args.args[1].arg]
+        gs = CFG(setter)
+        ok = bool(calls) and not gs.reaches(gs.entry, gs.exit, avoid=[n for c in calls for n in _nodes_containing(gs, c)], labels_excluded=('exc', 'raise', 'reraise'))
     ctx.ob('R14.2', 'Distribution.stream.setter', ok)
     if not ok:
-        ctx.finding('R14.2', 'Distribution.stream:setter', base, setter or base.node, 'assigning .stream does not go through _set_stream: inner distributions keep the old stream',
+        ctx.finding('R14.2', 'Distribution.stream:setter', base, setter or base.node, 'assigning .stream does not call _set_stream(stream) on every path: inner distributions and cached draw state keep depending on the old stream',
                     where='Distribution.stream')
     for c in dists:
         ci = prog.cls(c)
